@@ -15,6 +15,7 @@ import (
 	"github.com/samber/lo"
 	"github.com/synnaxlabs/alamos"
 	"github.com/synnaxlabs/aspen"
+	"github.com/synnaxlabs/freighter"
 	"github.com/synnaxlabs/synnax/pkg/distribution/channel"
 	"github.com/synnaxlabs/synnax/pkg/distribution/proxy"
 	"github.com/synnaxlabs/synnax/pkg/storage/ts"
@@ -150,8 +151,8 @@ func (s *Service) Open(ctx context.Context, cfg Config) (*Iterator, error) {
 // The returned StreamIterator is a confluence.Segment that uses a channel-based interface,
 // where requests are sent through an input stream, and responses are received through
 // an output stream.
-func (s *Service) NewStream(ctx context.Context, cfg Config) (StreamIterator, error) {
-	if err := s.validateChannelKeys(ctx, cfg.Keys); err != nil {
+func (s *Service) NewStream(ctx context.Context, cfg Config) (_ StreamIterator, err error) {
+	if err = s.validateChannelKeys(ctx, cfg.Keys); err != nil {
 		return nil, err
 	}
 	cfg.Keys = cfg.Keys.Unique()
@@ -163,14 +164,24 @@ func (s *Service) NewStream(ctx context.Context, cfg Config) (StreamIterator, er
 		needGatewayRouting = len(batch.Gateway) > 0
 		receiverAddresses  []address.Address
 		routeInletTo       address.Address
+		peerSenders        []freighter.StreamSenderCloser[Request]
 	)
+	// Once the peers have opened their iterators, a failure of the rest of the open must
+	// close the peer streams: the caller gets no iterator to close, and the iterators would
+	// otherwise stay open on the peers (a channel with an open iterator cannot be deleted).
+	defer func() {
+		if err != nil && len(peerSenders) > 0 {
+			err = s.closePeerClients(peerSenders, err)
+		}
+	}()
 
 	if needPeerRouting {
 		routeInletTo = peerSenderAddr
-		sender, receivers, err := s.openManyPeers(ctx, cfg.Bounds, cfg.ChunkSize, batch.Peers, !needGatewayRouting)
-		if err != nil {
-			return nil, err
+		sender, receivers, openErr := s.openManyPeers(ctx, cfg.Bounds, cfg.ChunkSize, batch.Peers, !needGatewayRouting)
+		if openErr != nil {
+			return nil, openErr
 		}
+		peerSenders = sender.Senders
 		plumber.SetSink[Request](pipe, peerSenderAddr, sender)
 		receiverAddresses = make([]address.Address, len(receivers))
 		for i, c := range receivers {
